@@ -60,6 +60,9 @@ class C12(EngineProp):
     def oracle(self, case, obs):
         fails = []
         ex = obs['extra']
+        ended_by_script = any(s.get('op') in ('lost', 'close') for g in obs.get('script', []) for s in g)
+        if ex and ex['closed'] and not ended_by_script:
+            fails.append({'signature': 'connection-taken-down', 'what': 'nothing in the script ended the connection, yet the endpoint closed it (on_close was delivered): input or failing application code took it down'})
         if ex and not ex['closed']:
             want = 'S:PAYLOAD:%d:0110:0:0:249' % ex['probe_sid']
             if want not in ex['probe_wire']:
